@@ -372,6 +372,120 @@ def c05_reset_restores(ctx):
     return q.result()
 
 
+def c10_known_answer_filter(ctx):
+    q = Q("c10_known_answer_filter", ["DnsCache::get_known_answers::{closure} (the filter)", "DnsRecord::is_unique", "DnsRecord::halflife_passed", "get_expiration_time"],
+          "every cached record state (created < 2^62, ttl: u32, flush flag) and every now < 2^62", ["clock < 2^62", "get_record() is a pure accessor of the boxed record"])
+    if not check_layout(ctx, q):
+        return q.result()
+    cands = [n for n in ctx.funcs if "::get_known_answers::{closure#" in n and ctx.funcs[n].ret == "bool"]
+    if len(cands) != 1:
+        q.unknown.append(f"filter closure: {len(cands)} candidates")
+        return q.result()
+    f = ctx.funcs[cands[0]]
+    now = z3.BitVec("now", 64)
+    env = ("env", 0)
+    ex = Explorer(ctx.funcs, ctx.consts, inline=REC_INLINE | {"is_unique", "halflife_passed"})
+    paths = ex.explore(f.name, args=[Ref(env, ()), None], objs={env: {(0,): BV(now, 64)}})
+    rets = [p for p in paths if p.outcome == "return"]
+    if ex.unknown_constructs or not rets:
+        q.unknown.append("closure not translated: " + "; ".join(ex.unknown_constructs[:3]))
+        return q.result()
+    def rec_pre(p):
+        out = [z3.ULT(now, TWO62)]
+        for o, fl in p.objs.items():
+            if isinstance(o, tuple) and o and o[0] == "record-of" and CREATED in fl:
+                out.append(z3.ULT(fl[CREATED].e, TWO62))
+        return out
+    for i, p in enumerate(paths):
+        if p.outcome.startswith("panic"):
+            q.unsat(p.cond + rec_pre(p), "filter panics: " + p.outcome[6:40])
+    for i, p in enumerate(rets):
+        recs = [o for o in p.objs if isinstance(o, tuple) and o and o[0] == "record-of"]
+        if len(recs) != 1:
+            q.unknown.append(f"path {i}: the filter looks at {len(recs)} record objects")
+            continue
+        o = p.objs[recs[0]]
+        flush = o.get((0, 3))      # entry.cache_flush  (DnsEntry: name 0, ty 1, class 2, cache_flush 3)
+        created, ttl = o.get(CREATED), o.get(TTL)
+        pre = p.cond + [z3.ULT(now, TWO62)] + ([z3.ULT(created.e, TWO62)] if created is not None else [])
+        if flush is None:
+            q.unknown.append(f"path {i}: cache_flush not read")
+            continue
+        if created is None or ttl is None:
+            # path decided by the flush flag alone
+            q.valid(pre, z3.Implies(flush.e, z3.Not(p.ret.e)), f"path {i}: a unique (cache-flush) record is never listed", p.ret.taint)
+            continue
+        listed = z3.And(z3.Not(flush.e), z3.ULE(now, created.e + zx(ttl.e) * 500))
+        q.valid(pre, p.ret.e == listed, f"path {i}: listed <=> shared record with at least half of its lifetime left", p.ret.taint)
+        q.witness(pre + [p.ret.e], f"path {i}: listed")
+        q.witness(pre + [z3.Not(p.ret.e)], f"path {i}: past half life")
+    return q.result()
+
+
+def c05_verify_shortens_only(ctx):
+    q = Q("c05_verify_shortens_only", ["DnsCache::service_verify_queries", "DnsRecordExt::set_expire_sooner", "DnsRecordExt::get_expire", "DnsRecord::set_expire"],
+          "every record state and every requested deadline (u64 x u64); first iteration of each loop of service_verify_queries",
+          ["get_record()/get_record_mut() are pure accessors of the boxed record", "unmodelled calls are havoc"])
+    if not check_layout(ctx, q):
+        return q.result()
+    # (a) the primitive: expires' == min(expires, deadline), nothing else touched
+    name = "DnsRecordExt::set_expire_sooner"
+    if name not in ctx.funcs:
+        q.unknown.append("default method DnsRecordExt::set_expire_sooner not found")
+        return q.result()
+    dl = z3.BitVec("deadline", 64)
+    ex = Explorer(ctx.funcs, ctx.consts, inline={"get_expire", "get_expire_time", "set_expire", "DnsRecordExt::get_expire"})
+    so = ("selfobj", 0)
+    paths = ex.explore(name, args=[Ref(so, ()), BV(dl, 64)], objs={so: {}})
+    rets = [p for p in paths if p.outcome == "return"]
+    if ex.unknown_constructs or not rets:
+        q.unknown.append("set_expire_sooner not translated: " + "; ".join(ex.unknown_constructs[:3]))
+    for i, p in enumerate(rets):
+        recs = [o for o in p.objs if isinstance(o, tuple) and o and o[0] == "record-of"]
+        if len(recs) != 1 or EXPIRES not in p.objs[recs[0]]:
+            q.unknown.append(f"set_expire_sooner path {i}: expected exactly one record object with an expiry")
+            continue
+        after = p.objs[recs[0]][EXPIRES]
+        before = [v for v in z3_vars(z3.And(*p.cond)) if ".3" in str(v)] if p.cond else []
+        if len(before) != 1:
+            q.unknown.append(f"set_expire_sooner path {i}: cannot identify the old expiry")
+            continue
+        old = before[0]
+        q.valid(p.cond, after.e == z3.If(z3.ULT(dl, old), dl, old), f"set_expire_sooner path {i}: expires' == min(expires, deadline) (never later)", after.taint)
+        q.witness(p.cond, f"set_expire_sooner path {i}")
+    # (b) service_verify_queries only ever shortens, and with the requested deadline, on SRV and on address records
+    fname = ctx.fn("::service_verify_queries")
+    dl2 = z3.BitVec("expire_at", 64)
+    opt = Adt("std::option::Option::<u64>::Some", [BV(dl2, 64)])
+    ex = Explorer(ctx.funcs, ctx.consts, max_paths=1500)
+    paths = ex.explore(fname, args=[None, None, opt])
+    sites = {}
+    for p in paths:
+        for e in p.events:
+            if e[0] == "call" and e[1].split("::")[-1].startswith("set_expire"):
+                short = e[1].split("::")[-1]
+                sites.setdefault(e[3], set()).add(short)
+                if short != "set_expire_sooner":
+                    q.fail.append((f"verify writes an expiry with {short} (can lengthen a lifetime)", f"call site {e[3]}"))
+                else:
+                    v = e[2][1]
+                    if not isinstance(v, BV) or v.taint:
+                        q.unknown.append(f"deadline operand at {e[3]} not resolved")
+                    else:
+                        q.valid(p.cond, v.e == dl2, f"site {e[3][1]}: the deadline applied is the requested one")
+    if len(sites) < 2:
+        q.unknown.append(f"expected expiry updates on SRV and on address records, found {len(sites)} call site(s)")
+    else:
+        q.nontrivial += len(sites)
+    # with None nothing may be shortened
+    ex2 = Explorer(ctx.funcs, ctx.consts, max_paths=1500)
+    for p in ex2.explore(fname, args=[None, None, Adt("std::option::Option::<u64>::None", [])]):
+        if any(e[0] == "call" and e[1].split("::")[-1].startswith("set_expire") for e in p.events):
+            q.fail.append(("a repeating verify (no deadline) changes an expiry", "expire_at=None"))
+            break
+    return q.result()
+
+
 # ---------------------------------------------------------------------------------------------
 # C07: probe clock
 # ---------------------------------------------------------------------------------------------
@@ -788,8 +902,8 @@ def c07_reannounce_delay(ctx):
 
 SPECS = {
     "C11": [c11_new_lifetime, c11_predicates, c11_refresh_schedule, c11_reset_restarts],
-    "C10": [c10_update_ttl],
-    "C05": [c05_reset_restores, c05_verify_deadline],
+    "C10": [c10_update_ttl, c10_known_answer_filter],
+    "C05": [c05_reset_restores, c05_verify_deadline, c05_verify_shortens_only],
     "C07": [c07_probe_clock, c07_reannounce_delay],
     "C12": [c12_poll_timeout, c12_ipcheck_rearm],
     "C19": [c19_browse_backoff, c19_hostname_backoff, c19_resolve_retry, c19_initial_delay, c19_rerun_due],
